@@ -142,17 +142,25 @@ class DefUse:
             t = b['term']
             if t['k'] in ('call', 'tailcall'):
                 uses, at = set(), set()
+                cal = callee_of(t)
+                reborrow = cal is not None and _reborrow_like(cal) and len(t['args']) == 1 and op_place(t['args'][0]) is not None and not op_place(t['args'][0])['pr']
                 for o in t['args']:
+                    if reborrow:
+                        # `&*x`, `x.borrow_mut()`, `guard.deref_mut()` ...: the result is another name for (part of) what the argument points to;
+                        # only the pointer's identity is read, nothing behind it is read or written by the call itself
+                        uses.add((op_place(o)['l'], (), 'addr'))
+                        continue
                     a, c = self._op_uses(o)
                     uses |= a
                     at |= c
                 a, c = self._op_uses(t['func'])
                 uses |= a
-                cal = callee_of(t)
                 at.add(Atom(('call', bb, cal['path'] if cal else '?')))
                 if t['k'] == 'call':
                     assigns.append((t['dest'], uses, at, ('call', [op_place(o) for o in t['args']])))
                     self.defs[t['dest']['l']].append((bb, None))
+                if reborrow:
+                    continue
                 for o in t['args']:
                     p = op_place(o)
                     if p is None or p['pr']:
@@ -321,19 +329,182 @@ class DefUse:
             out |= self.roots_of(p['l'], depth + 1)
         return out
 
-    def root_of(self, l, depth=0, through_calls=True):
-        """follow single-definition copies / moves / reborrows / unwrap-like identity calls back to a root local"""
+    def _success_defs(self, l):
+        """definitions of l without the ones that only build a failure value (Err / None / Break, `?` residuals)"""
+        ds = self.defs.get(l, [])
+        if len(ds) <= 1:
+            return ds
+        out = []
+        for bb, si in ds:
+            if si is None:
+                c = callee_of(self.fn.term(bb))
+                if c and c['path'] == FROM_RESIDUAL:
+                    continue
+            else:
+                s = self.fn.blocks[bb]['stmts'][si]
+                if not s['p']['pr'] and s['rv']['k'] == 'agg' and s['rv'].get('variant') in ('Err', 'None', 'Break'):
+                    continue
+            out.append((bb, si))
+        return out
+
+    def trace_root(self, l, path=(), within=None):
+        """follow a value back through single (success) definitions, looking through copies, identity-like calls, `?`, and -- unlike root_of -- through
+        aggregates: a value stored into field f of a struct / tuple / Ok(..) and read back as `.f` is followed to what was stored.
+        Returns (root local, remaining field path)."""
+        path = list(path)
+        seen = set()
+        fn = self.fn
+        for _ in range(60):
+            key = (l, tuple(path))
+            if key in seen:
+                break
+            seen.add(key)
+            ds = self._success_defs(l)
+            if within is not None and len(ds) > 1:
+                ds = [d for d in ds if d[0] in within]      # only the definitions on the (constant-specialised) path of interest
+            if len(ds) > 1:
+                import json as _json
+                if all(si is not None for _, si in ds):
+                    if len({_json.dumps(fn.blocks[bb]['stmts'][si]['rv'], sort_keys=True) for bb, si in ds}) == 1 and not any(fn.blocks[bb]['stmts'][si]['p']['pr'] for bb, si in ds):
+                        ds = ds[:1]
+                elif all(si is None for _, si in ds):
+                    if len({(callee_of(fn.term(bb)) or {}).get('path', '?') + repr([op_local(a) for a in fn.term(bb)['args']]) for bb, _ in ds}) == 1:
+                        ds = ds[:1]
+            if len(ds) != 1:
+                break
+            bb, si = ds[0]
+            if si is None:
+                t = fn.term(bb)
+                c = callee_of(t)
+                if c and (_identity_like(c) or c['path'] == TRY_BRANCH) and t['args'] and op_local(t['args'][0]) is not None and not op_place(t['args'][0])['pr']:
+                    l = op_local(t['args'][0])
+                    continue
+                break
+            st = fn.blocks[bb]['stmts'][si]
+            if st['p']['pr']:
+                break
+            rv = st['rv']
+            if rv['k'] in ('use', 'cast') and op_place(rv['op']) is not None:
+                p = op_place(rv['op'])
+                if any(e['k'] == 'index' for e in p['pr']):
+                    break
+                fs = [str(e.get('name', e.get('i'))) for e in p['pr'] if e['k'] == 'field']
+                if any(e['k'] == 'deref' for e in p['pr']) and fs:
+                    break      # a load through a pointer: the pointee is the root
+                path = fs + path
+                l = p['l']
+                continue
+            if rv['k'] in ('ref', 'rawptr') and all(e['k'] == 'deref' for e in rv['p']['pr']):
+                l = rv['p']['l']
+                continue
+            if rv['k'] == 'agg' and rv.get('ops') is not None and path:
+                names = rv.get('fields') or [str(i) for i in range(len(rv['ops']))]
+                want = path[0]
+                idx = None
+                for i, nme in enumerate(names):
+                    if str(nme) == want:
+                        idx = i
+                if idx is None and want.isdigit() and int(want) < len(rv['ops']):
+                    idx = int(want)
+                if idx is None:
+                    break
+                o = rv['ops'][idx]
+                p = op_place(o)
+                if p is None or any(e['k'] in ('deref', 'index') for e in p['pr']):
+                    break
+                path = [str(e.get('name', e.get('i'))) for e in p['pr'] if e['k'] == 'field'] + path[1:]
+                l = p['l']
+                continue
+            break
+        return l, tuple(path)
+
+    def sym(self, o, depth=0):
+        """symbolic expression tree of an operand, following single definitions:
+        ('const', v) | ('arg', i) | ('field', base, (names..)) | ('bin', op, a, b) | ('un', op, a) | ('call', path, [args]) | ('phi', local) | ('?',)"""
+        c = op_const(o)
+        if c is not None:
+            return ('const', c.get('val', c.get('s')))
+        p = op_place(o)
+        if p is None:
+            return ('?',)
+        return self.sym_place(p, depth)
+
+    def sym_place(self, p, depth=0):
+        fn = self.fn
+        fields = tuple(str(e.get('name', e.get('i'))) for e in p['pr'] if e['k'] == 'field')
+        if any(e['k'] == 'index' for e in p['pr']):
+            return ('?',)
+        base = self.sym_local(p['l'], depth + 1, want_fields=fields)
+        if not fields:
+            return base
+        # a checked operation `(a op b).0`
+        if base[0] == 'bin' and fields == ('0',):
+            return base
+        if base[0] == 'field':
+            return ('field', base[1], base[2] + fields)
+        return ('field', base, fields)
+
+    def sym_local(self, l, depth=0, want_fields=()):
+        fn = self.fn
+        if depth > 40:
+            return ('?',)
+        if 1 <= l <= fn.argc and not self.defs.get(l):
+            return ('arg', l)
+        ds = self._success_defs(l)
+        whole = [(bb, si) for bb, si in ds if si is None or not fn.blocks[bb]['stmts'][si]['p']['pr']]
+        if want_fields and len(whole) <= 1:
+            # a field read of a local that is also stored into field-wise: the value is the stored field when there is exactly one such store
+            stores = [(bb, si) for bb, si in ds if si is not None and fn.blocks[bb]['stmts'][si]['p']['pr']
+                      and tuple(str(e.get('name', e.get('i'))) for e in fn.blocks[bb]['stmts'][si]['p']['pr'] if e['k'] == 'field') == tuple(want_fields)]
+            if stores:
+                return ('phi', l)      # flow-dependent: the caller must not assume either value
+        if 1 <= l <= fn.argc and not whole:
+            return ('arg', l)
+        if len(whole) != 1:
+            return ('phi', l)
+        bb, si = whole[0]
+        if si is None:
+            t = fn.term(bb)
+            c = callee_of(t)
+            return ('call', c['path'] if c else '?', [self.sym(a, depth + 1) for a in t['args']])
+        rv = fn.blocks[bb]['stmts'][si]['rv']
+        k = rv['k']
+        if k in ('use', 'cast'):
+            return self.sym(rv['op'], depth + 1)
+        if k == 'bin':
+            op = rv['op'].replace('WithOverflow', '').replace('Unchecked', '')
+            return ('bin', op, self.sym(rv['a'], depth + 1), self.sym(rv['b'], depth + 1))
+        if k == 'un':
+            return ('un', rv['op'], self.sym(rv['a'], depth + 1))
+        if k in ('ref', 'rawptr'):
+            return self.sym_place(rv['p'], depth + 1)
+        return ('?',)
+
+    def root_of(self, l, depth=0, through_calls=True, through_wraps=False):
+        """follow single-definition copies / moves / reborrows / unwrap-like identity calls back to a root local; with through_wraps also through
+        `Ok(x)` / `Some(x)`, `?` (Try::branch) and the payload projection of the success variant -- the path a value takes out of a helper that was folded in"""
         seen = set()
         while l not in seen:
             seen.add(l)
-            ds = self.defs.get(l, [])
+            ds = self._success_defs(l) if through_wraps else self.defs.get(l, [])
+            if len(ds) > 1 and all(si is not None for _, si in ds):
+                # copies of one statement made by jump threading / tail duplication
+                import json as _json
+                sig = {_json.dumps(self.fn.blocks[bb]['stmts'][si]['rv'], sort_keys=True) for bb, si in ds}
+                if len(sig) == 1 and not any(self.fn.blocks[bb]['stmts'][si]['p']['pr'] for bb, si in ds):
+                    ds = ds[:1]
+            if len(ds) > 1 and all(si is None for _, si in ds):
+                # copies of one call made by jump threading (rules/inline.py): same callee, same argument
+                sig = {(callee_of(self.fn.term(bb)) or {}).get('path') + '/' + repr([op_local(a) for a in self.fn.term(bb)['args']]) for bb, _ in ds if callee_of(self.fn.term(bb))}
+                if len(sig) == 1:
+                    ds = ds[:1]
             if len(ds) != 1:
                 return l
             bb, si = ds[0]
             if si is None:
                 t = self.fn.term(bb)
                 c = callee_of(t)
-                if through_calls and c and _identity_like(c) and t['args'] and op_local(t['args'][0]) is not None:
+                if through_calls and c and (_identity_like(c) or (through_wraps and c['path'] == TRY_BRANCH)) and t['args'] and op_local(t['args'][0]) is not None:
                     l = op_local(t['args'][0])
                     continue
                 return l
@@ -341,6 +512,16 @@ class DefUse:
             if s['p']['pr']:
                 return l
             rv = s['rv']
+            if through_wraps and rv['k'] == 'agg' and rv.get('variant') in ('Ok', 'Some', 'Continue') and len(rv['ops']) == 1 and op_place(rv['ops'][0]) is not None \
+                    and not op_place(rv['ops'][0])['pr']:
+                l = op_place(rv['ops'][0])['l']
+                continue
+            if through_wraps and rv['k'] == 'use' and op_place(rv['op']) is not None:
+                p = op_place(rv['op'])
+                pr = [e for e in p['pr']]
+                if len(pr) == 2 and pr[0]['k'] == 'downcast' and pr[0].get('variant') in ('Ok', 'Some', 'Continue') and pr[1]['k'] == 'field':
+                    l = p['l']
+                    continue
             if rv['k'] == 'use' and op_place(rv['op']) is not None:
                 p = op_place(rv['op'])
                 if all(e['k'] in ('deref',) for e in p['pr']) or not p['pr']:
@@ -453,6 +634,26 @@ class Prov:
 _IDENT = ('std::ops::Deref::deref', 'std::ops::DerefMut::deref_mut', 'std::convert::AsRef::as_ref',
           'std::convert::AsMut::as_mut', 'std::borrow::Borrow::borrow', 'std::borrow::BorrowMut::borrow_mut',
           'std::clone::Clone::clone', 'std::convert::Into::into', 'std::convert::From::from')
+
+
+_REBORROW_NAMES = {'deref', 'deref_mut', 'as_ref', 'as_mut', 'borrow', 'borrow_mut', 'as_ptr', 'as_mut_ptr', 'as_slice', 'as_mut_slice', 'get_mut', 'as_deref', 'as_deref_mut'}
+
+
+def _reborrow_like(c):
+    """calls whose result points into what their single pointer argument points to, and that neither read nor write the pointee"""
+    p = c['path']
+    name = last_seg(strip_generics(p))
+    if p in ('std::ops::Deref::deref', 'std::ops::DerefMut::deref_mut', 'std::convert::AsRef::as_ref', 'std::convert::AsMut::as_mut',
+             'std::borrow::Borrow::borrow', 'std::borrow::BorrowMut::borrow_mut'):
+        return True
+    st = c.get('self_ty') or ''
+    if name in ('borrow', 'borrow_mut', 'try_borrow', 'try_borrow_mut', 'get_mut', 'as_ptr') and ('RefCell<' in st or 'std::cell::' in p):
+        return True
+    if name in ('lock', 'try_lock', 'read', 'write', 'try_read', 'try_write', 'get_mut') and ('Mutex<' in st or 'RwLock<' in st or 'std::sync::Mutex' in p or 'std::sync::RwLock' in p or 'std::sync::poison' in p):
+        return True
+    if name in _REBORROW_NAMES and ('std::ptr::NonNull' in p or 'std::rc::Rc' in p or 'std::sync::Arc' in p or 'std::vec::Vec' in p or 'core::slice' in p or 'std::slice' in p):
+        return True
+    return False
 
 
 def _identity_like(c):
